@@ -158,13 +158,18 @@ def main(run):
         random.seed(seed)
         np.random.seed(seed)
         st = storage_proxy(BatchStorage, clock)(store_targets=True)
+        window = None
+        if mode.startswith("explain_one") and i % 8 == 7:
+            # a BOUNDED storage handed to BatchSage (a sliding window): every call explains the window's content of that moment
+            window = rnd.choice([1, 2, 3, 4])
+            st = storage_proxy(IntervalStorage, clock)(size=window, store_targets=True)
         if strat == "default":
             from ixai.imputer import DefaultImputer
             imp = ImputerProxy(DefaultImputer(model, {f: -(j + 1) for j, f in enumerate(names)}), clock)
         else:
             imp = ImputerProxy(MarginalImputer(model, strat, st), clock)
         data = [({f: 1000 * (t + 1) + j for j, f in enumerate(names + extras)}, rnd.randrange(-4, 5)) for t in range(m)]
-        replay = {"mode": mode, "unexplained_features": extras, "d": d, "rows": m, "n_inner": n_inner, "strategy": strat, "names": names, "seed": seed,
+        replay = {"mode": mode, "unexplained_features": extras, "d": d, "rows": m, "n_inner": n_inner, "strategy": strat, "names": names, "seed": seed, "window_storage": window,
                   "model": model.kind, "loss": ("river:" if river_loss else "") + loss.kind}
         try:
             e = BatchSage(model, names, loss.as_argument() if river_loss else loss, n_inner_samples=n_inner, storage=st, imputer=imp)
@@ -188,7 +193,7 @@ def main(run):
                 else:
                     ret = e.explain_one(data[-1][0], data[-1][1], n_inner_samples=override,
                                         original_sage=(mode == "explain_one_original"), verbose=False)
-                expl = data
+                expl = data if window is None else data[-window:]
                 upd = [ev for ev in clock.log if ev[0] == "storage.update"]
                 if len(upd) != 1 or not (upd[0][1] == data[-1][0]):
                     raise Bad("explain-one-storage", "BatchSage.explain_one must store the observation once before explaining")
@@ -199,12 +204,11 @@ def main(run):
         except TypeError as ex:
             run.other_error(f"C15:{type(ex).__name__}:{str(ex)[:60]}")
             continue
-        log = list(clock.log)
-        try:
+        def judge_batch(ret, log, expl, used):
             if "original" in mode:
                 per, eff, srcs = ref_original_mode(names, model, loss, log, expl, used)
-                for s in srcs:
-                    run.see("original-background-row", s)
+                for s_ in srcs:
+                    run.see("original-background-row", s_)
             else:
                 per, eff, orders = ref_imputer_mode(names, model, loss, log, expl)
                 for o in orders:
@@ -222,10 +226,24 @@ def main(run):
                 raise Bad("per-feature-average", f"values {ret!r} != average chain contributions {per!r}")
             if not (ret == e.importance_values):
                 raise Bad("return-value", "returned dict differs from importance_values")
+            return tot, eff
+        log = list(clock.log)
+        try:
+            tot, eff = judge_batch(ret, log, expl, used)
             if len({v for v in ret.values() if v != 0}) >= 2:
                 run.nontriv(("batch", run.shard[0], i))
                 if len(run.samples) < 2 and d >= 3:
                     run.sample({**replay, "data": expl, "values": ret, "sum": tot, "mean_explained_loss": eff})
+            if mode.startswith("explain_one") and i % 4 == 3 and strat != "default" and not extras:
+                # HISTORY: the same explainer goes on explaining observation after observation (every call is a full
+                # recomputation over the storage content of that moment)
+                for t2 in range(3):
+                    x2, y2 = {f: 1000 * (m + t2 + 1) + j for j, f in enumerate(names)}, rnd.randrange(-4, 5)
+                    data.append((x2, y2))
+                    clock.reset()
+                    ret = e.explain_one(x2, y2, n_inner_samples=override, original_sage=(mode == "explain_one_original"), verbose=False)
+                    judge_batch(ret, list(clock.log), list(data) if window is None else data[-window:], used)
+                    run.count("batch-explain-one-histories" if window is None else "batch-explain-one-histories-on-a-window")
         except Bad as b:
             run.violation(f"batch:{b.mech}", f"{b} | {replay}", replay)
     # ---------------- interval schedule + efficiency
